@@ -267,3 +267,44 @@ Proof.
   - eexists; eexists; eexists. vm_compute. repeat split; reflexivity.
   - eexists; eexists. split; [vm_compute; reflexivity|discriminate].
 Qed.
+
+(* ------------------------------------------------------------------ *)
+(* sub-commands with a graph argument: instances                       *)
+(* ------------------------------------------------------------------ *)
+(* the general statements about them are pipeline_roundtrip / pipeline_in_range / pipeline_total / pipeline_chain
+   (they hold for every argv); the selection of a variant by an option is shown here on instances: the output is
+   the rendering of the family model with exactly that variant, on the graph the argument names *)
+Example pipeline_graph_variants :
+  let K3 := [(1, 2); (1, 3); (2, 3)] in
+  let out nv l := POut (print_dimacs None None nv (to_cnf l)) in
+  (exists l, Fam_domset.domset_ir 3 K3 2 false = Some l /\
+     cnfgen_main ["-q"; "domset"; "2"; "complete"; "3"]%string = out (Fam_domset.domset_numvar 3 2) l) /\
+  (exists l, Fam_domset.domset_ir 3 K3 2 true = Some l /\
+     cnfgen_main ["-q"; "domset"; "2"; "complete"; "3"; "--alternative"]%string = out (Fam_domset.domset_numvar 3 2) l /\
+     cnfgen_main ["-q"; "domset"; "-a"; "2"; "complete"; "3"]%string = out (Fam_domset.domset_numvar 3 2) l /\
+     cnfgen_main ["-q"; "domset"; "2"; "-a"; "complete"; "3"]%string = out (Fam_domset.domset_numvar 3 2) l) /\
+  (exists l, Fam_subgraph.kclique_ir 3 K3 2 true = Some l /\
+     cnfgen_main ["-q"; "kclique"; "2"; "complete"; "3"]%string = out (Fam_subgraph.kclique_numvar 3 2) l) /\
+  (exists l, Fam_subgraph.kclique_ir 3 K3 2 false = Some l /\
+     cnfgen_main ["-q"; "kclique"; "2"; "complete"; "3"; "--no-symmetry-breaking"]%string = out (Fam_subgraph.kclique_numvar 3 2) l) /\
+  cnfgen_main ["-q"; "tseitin"; "first"; "complete"; "3"]%string
+    = out (Fam_tseitin.tseitin_numvar K3) (Fam_tseitin.tseitin_ir 3 K3 (Some [true; false; false])) /\
+  cnfgen_main ["-q"; "tseitin"; "zero"; "complete"; "3"]%string
+    = out (Fam_tseitin.tseitin_numvar K3) (Fam_tseitin.tseitin_ir 3 K3 (Some [false; false; false])) /\
+  cnfgen_main ["-q"; "tseitin"; "one"; "complete"; "3"]%string
+    = out (Fam_tseitin.tseitin_numvar K3) (Fam_tseitin.tseitin_ir 3 K3 (Some [true; true; true])) /\
+  cnfgen_main ["-q"; "subsetcard"; "shift"; "2"; "3"; "0"; "1"]%string
+    = out 4 (Fam_subsetcard.subsetcard_ir [[1; 2]; [2; 3]] 3 false) /\
+  cnfgen_main ["-q"; "subsetcard"; "-e"; "shift"; "2"; "3"; "0"; "1"]%string
+    = out 4 (Fam_subsetcard.subsetcard_ir [[1; 2]; [2; 3]] 3 true) /\
+  cnfgen_main ["-q"; "php"; "shift"; "2"; "3"; "0"; "1"; "--functional"]%string
+    = out 4 (gphp_ir [[1; 2]; [2; 3]] 3 true false) /\
+  cnfgen_main ["-q"; "peb"; "pyramid"; "1"]%string = out 3 (clauses_ir (Fam_pebbling.peb_cnf [[]; []; [1; 2]])) /\
+  cnfgen_main ["-q"; "kcolor"; "2"; "grid"; "2"; "2"]%string = POutside /\
+  cnfgen_main ["-q"; "kcolor"; "2"; "complete"; "0"]%string = PCliError /\
+  cnfgen_main ["-q"; "kcolor"; "2"; "path"; "3"]%string = PCliError.
+Proof.
+  cbv zeta. repeat split.
+  all: try (eexists; split; [vm_compute; reflexivity|]; repeat split).
+  all: vm_compute; reflexivity.
+Qed.
